@@ -613,7 +613,14 @@ pub fn strategy(name: &'static str, max_len: usize) -> impl Strategy<Value = SCa
 			let p = if cfg.cfg.is_null() { 20 } else { cfggen::max_period(&cfg.cfg).clamp(2, 60) } as u32;
 			(Just(cfg), prop_oneof![3 => gen::candle_stream_n(p, max_len), 1 => gen::regime_candle_stream_n(p, max_len)])
 		})
-		.prop_map(|(cfg, s)| SCase { cfg, s })
+		.prop_map(move |(mut cfg, s)| {
+			if name == "Example" && !cfg.cfg.is_null() {
+				// its single threshold is an absolute price: put it inside the range the stream visits
+				let (lo, hi) = s.cs.iter().fold((f64::INFINITY, 0.0f64), |a, k| (a.0.min(k.c), a.1.max(k.c)));
+				cfg.cfg["price"] = serde_json::json!(gen::vt(lo + (hi - lo) * 0.4).max(1e-9));
+			}
+			SCase { cfg, s }
+		})
 }
 
 pub fn def(tier: Tier) -> PropertyDef {
